@@ -678,7 +678,10 @@ def canon_trace(ctx, reasons_to_aspect):
         if aspect is None:
             continue
         d = {'what': f'recorded canonicalization is not RFC 8785 ({why})', 'reason': why, 'event_index': l}
-        if ev['ev'] == 'canon':
+        if ev['ev'] == 'mutfail':
+            d['value'] = ev['v']
+            d['after_update'] = ev['after'] if len(lines[l - 1]) < 3000 else None
+        elif ev['ev'] == 'canon':
             d['input'] = {'text': ''.join(chr(c) for c in ev['text'])[:300]}
             d['numbers'] = [{'spelling': ''.join(chr(c) for c in c_['sp']), 'rendering': ''.join(chr(c) for c in c_['r'])} for c_ in ev['nums']][:8]
             d['value'] = ev['v'] if len(lines[l - 1]) < 3000 else None
